@@ -62,6 +62,10 @@ func (g *Generator) generateMethodFunction(obj *tlparser.Method) jen.Code {
 		resp = jen.Bool()
 		zeroResp = jen.False()
 	}
+	if _, isEnum := g.schema.Enums[obj.Response.Type]; isEnum && !obj.Response.IsList {
+		// enums are integer types, nil is not a value of them
+		zeroResp = jen.Lit(0)
+	}
 
 	responses := []jen.Code{resp, jen.Error()}
 
